@@ -19,4 +19,6 @@ for p in "$@"; do
   done
 done
 git -C /repo checkout -- .
+# the generated facts must describe the restored tree again
+/verif/.work/bin/extract /repo /verif/go/extract/targets.txt /verif/lean/ShmVerif/Gen >/dev/null 2>&1
 rm -rf /verif/replays
